@@ -51,13 +51,17 @@ AdvOK(d) == ~(tick /\ timerAt # None /\ timerAt <= now + d)
 
 \* lastScheduled near the current time: a few occurrences to catch up, or a first occurrence in the future
 Lo == IF now > Back THEN now - Back ELSE 0
-SchedOps == { SchedOp(id, c, last) : id \in Ids, c \in CfgSpace, last \in Lo..(now + 1) }
+\* an ending schedule ends a few seconds from now (`end` in CfgSpace is that distance); the real cron expression
+\* confines it to the first minute of model time, and a range "0-0/N" is not a range: 1 <= end <= 59
+Concrete(c) == IF c.k = "until" THEN [c EXCEPT !.end = now + c.end] ELSE c
+SchedOps == { op \in { SchedOp(id, Concrete(c), last) : id \in Ids, c \in CfgSpace, last \in Lo..(now + 1) } :
+                 op.c.k = "until" => op.c.end <= 59 }
 
 \* RandomElement is re-evaluated at every use: bind it once through \E over a singleton
 Environment ==
     \/ \E op \in {RandomElement(SchedOps)} :
          CallOK(op) /\ ApiCall(op)
-         /\ Log([a |-> "Call", t |-> "S", id |-> op.id, k |-> op.c.k, e |-> op.c.e, o |-> op.c.o, last |-> op.last, pre |-> Pre])
+         /\ Log([a |-> "Call", t |-> "S", id |-> op.id, k |-> op.c.k, e |-> op.c.e, o |-> op.c.o, end |-> op.c.end, last |-> op.last, pre |-> Pre])
     \/ \E id \in {RandomElement(Ids)} : \E coin \in {RandomElement(1..4)} :
          (active[id] \/ coin = 1)        \* releasing an id that is not scheduled is legal but rarely interesting
          /\ ApiCall(RelOp(id)) /\ Log([a |-> "Call", t |-> "R", id |-> id, pre |-> Pre])
